@@ -23,7 +23,9 @@ PROP = dict(
               "(the parameter is real-valued) x signal power {1e-6,1,1e6} x 7 signal letters (zero-mean: tone, "
               "constant modulus, broadband; with DC: unipolar broadband 0.5+0.5*lcg, tone on a 3x offset, constant, carrier leak = constant "
               "offset larger than the modulation; complex only, unequal I/Q power: Q 20 dB below I, real signal as complex with Q = 0) x N=10^4, "
-              "plus seeds 0..1 at the BIG sizes N=65537 and N=200000; rng replay: seeds 0..99 x all 819 programs of <= 3 calls over {rand(), rand(3), rand({a,b},2), randn(), "
+              "plus seeds 0..1 at the BIG sizes N=65537 and N=200000; awgn.tones: N in {131072, 200000, 262144} x real tone / complex I-only tone x "
+              "f in {1/4,1/3,1/6,1/8,1/10,3/10} cycles/sample (periods 3..10: any strided level estimate aliases) x phase {0, pi/2, 0.3} x "
+              "amplitude {1, 1e-3} x snr {10, 20.5} dB, one seed each, 6-standard-error band (< 2 %); rng replay: seeds 0..99 x all 819 programs of <= 3 calls over {rand(), rand(3), rand({a,b},2), randn(), "
               "randn(3), randi(5), randi({-2,2},3), awgn(real), awgn(complex)}; randi ranges {[1,1],[-3,-3],[-5,5],[0,1],[-2^30,2^30]} and "
               "randi(imax) imax {1,2,6,1000}, 10^4 draws x 20 seeds; rand({a,b},n) with 6 fractional ranges x 20 seeds inside [a,b]; thd/sinad/snr: N {2048,4096,5000,8192} x 3 fundamental positions x "
               "offsets {0,0.1,0.25,0.5,0.73} bin x 1..5 harmonics x <= 8 level patterns from {-10,-20,-30,-40} dBc x 3 phase letters x "
@@ -33,7 +35,7 @@ PROP = dict(
               "patterns {-40,-10,-30,-20} and {-30,-40,-10} dBc; every configuration also checks each harmonic's level "
               "harmpow[k]-harmpow[0] within 0.1 dB of its true dBc; BIG records N {65536, 100000, 131072} on a mini grid (3 positions x offsets "
               "{0,0.25} x H {1,5} x 2 level patterns = 24 configurations each, 5 scales)",
-        thorough="awgn (7 real / 9 complex letters; the fractional snr values at signal power 1 only) seeds 0..999 at N=10^4, 0..49 at N=10^5, 0..4 at N=10^6, 0..9 at N=200000, 0..19 at N in "
+        thorough="awgn.tones also at N = 10^6 and 2^20; awgn (7 real / 9 complex letters; the fractional snr values at signal power 1 only) seeds 0..999 at N=10^4, 0..49 at N=10^5, 0..4 at N=10^6, 0..9 at N=200000, 0..19 at N in "
                  "{9973 (prime), 10001, 65536, 65537, 131072}; rng replay and seed_matters seeds 0..9999 (8.19M call programs); randi and rand({a,b}) 200 "
                  "seeds per range; measurement: for N {2048,4096,5000} every combination of the first three harmonic levels "
                  "(4+16+64+64+64 patterns, further levels derived), plus the 8-pattern set (1620 configurations each) at N in {3000, 6000, "
